@@ -3,7 +3,7 @@
 
    Mirrors (commit 875a8d5):
      py/compat.py      cache, lru_cache            -> memo_get / memo_put (keys compared by ==/hash)
-     serdes.py         strload  (lru, returns the cached object itself)      -> load
+     serdes.py         strload  (memoised _strload; hands out a deep copy)   -> load
                        isoformat (only its duration writer _isoduration is lru-cached) -> iso
                        dateparse (lru)                                       -> parse
      graph.py          static_order (cache keyed by annotation ==)           -> get_so
@@ -249,17 +249,18 @@ Variable W : world.
 Definition atom_eqv (a b : N) : bool := N.eqb (w_eqc W a) (w_eqc W b).
 
 (* ---- the three value caches as they are reached from the routines *)
-(* serdes.load: strload (cached) iff the value is text *)
+(* serdes.load: strload iff the value is text.  strload returns copy.deepcopy of the object its memo
+   (_strload) owns: the caller gets the content with a fresh identity (erase = all tags PFresh) *)
 Definition load_w (x : val) (s : state) : val * state :=
   match x with
   | VA a =>
       if w_text W a then
         match memo_get atom_eqv N.eqb (t_load s) a with
-        | Some (cv, tbl, coll) => (snd cv, flag (set_load s tbl (ncell s)) coll)
+        | Some (cv, tbl, coll) => (erase (snd cv), flag (set_load s tbl (ncell s)) coll)
         | None =>
             let c := ncell s in
             let v := tag (PCache c) [] (w_strload W a) in
-            (v, set_load s (memo_put (w_max_load W) (t_load s) a (c, v)) (S c))
+            (erase v, set_load s (memo_put (w_max_load W) (t_load s) a (c, v)) (S c))
         end
       else (x, s)
   | _ => (x, s)
